@@ -79,6 +79,9 @@ type Opts struct {
 	NoComposites bool
 	// WideCmap allows non-BMP code points (format 12 subtables).
 	NoWideCmap bool
+	// StemHeavy gives half of the CFF glyphs a stem list of 23-25 pairs (the
+	// capacity of one stem operator is 24 pairs, 23 after a width operand).
+	StemHeavy bool
 }
 
 // Case is a generated font with the facts the oracles need.
@@ -529,7 +532,7 @@ func cffCoord(t *rapid.T) float64 {
 	}
 }
 
-func genCFFGlyph(t *rapid.T, name string, width float64) *cff.Glyph {
+func genCFFGlyph(t *rapid.T, name string, width float64, stemHeavy bool) *cff.Glyph {
 	g := cff.NewGlyph(name, width)
 	nsub := rapid.IntRange(0, 3).Draw(t, "nSubpaths")
 	for s := 0; s < nsub; s++ {
@@ -597,12 +600,25 @@ func genCFFGlyph(t *rapid.T, name string, width float64) *cff.Glyph {
 	if rapid.IntRange(0, 3).Draw(t, "stems") == 0 {
 		g.HStem = stemList(t)
 		g.VStem = stemList(t)
+	} else if stemHeavy && rapid.Bool().Draw(t, "fullStemList") {
+		// exactly at the capacity of one stem operator, +-1
+		var pos float64
+		for i := 2 * rapid.IntRange(23, 25).Draw(t, "nStemPairs"); i > 0; i-- {
+			pos += float64(rapid.IntRange(1, 40).Draw(t, "stemD"))
+			g.HStem = append(g.HStem, pos)
+		}
+		if rapid.Bool().Draw(t, "vInstead") {
+			g.HStem, g.VStem = nil, g.HStem
+		}
 	}
 	return g
 }
 
 func stemList(t *rapid.T) []float64 {
-	n := rapid.IntRange(0, 3).Draw(t, "nStems")
+	// a few stems, or about as many as one stem operator can take (24 pairs
+	// fill the 48-entry operand stack; a width operand in front leaves room
+	// for 23)
+	n := rapid.OneOf(rapid.IntRange(0, 3), rapid.IntRange(0, 3), rapid.IntRange(0, 3), rapid.IntRange(22, 26)).Draw(t, "nStems")
 	var res []float64
 	pos := float64(rapid.IntRange(-200, 200).Draw(t, "stem0"))
 	for i := 0; i < 2*n; i++ {
@@ -675,7 +691,7 @@ func genCFF(t *rapid.T, n int, cidKeyed bool, o Opts, c *Case, fl *filler) *cff.
 	out.Glyphs = make([]*cff.Glyph, n)
 	for i := range out.Glyphs {
 		if small {
-			out.Glyphs[i] = genCFFGlyph(t, names[i], float64(widthGen().Draw(t, "width")))
+			out.Glyphs[i] = genCFFGlyph(t, names[i], float64(widthGen().Draw(t, "width")), o.StemHeavy)
 		} else {
 			w := float64([]int{500, 500, 600, 250, 1000, 0}[fl.intn(6)] + fl.intn(3)*fl.intn(40))
 			out.Glyphs[i] = fillCFFGlyph(fl, names[i], w)
